@@ -265,10 +265,21 @@ func (p *pieces) Read(b []byte) (int, error) {
 
 // scratch is per-worker reusable state for running the real reader.
 type scratch struct {
-	br  bytes.Reader
-	buf [512]byte
-	out []byte
-	txt []byte
+	br    bytes.Reader
+	buf   [512]byte
+	out   []byte
+	txt   []byte
+	after [nAfter]afterRead // the Reads made after the first error
+}
+
+// nAfter further Reads (with a non-empty buffer) are made after the reader's
+// first error: a reader that has failed must stay failed and release nothing,
+// a reader that has ended must stay ended.
+const nAfter = 3
+
+type afterRead struct {
+	n   int
+	err error
 }
 
 // decode runs the real reader over text until its first error and returns
@@ -294,10 +305,15 @@ func (s *scratch) decode(text []byte, mode int) ([]byte, error) {
 		n, err := rd.Read(s.buf[:step])
 		s.out = append(s.out, s.buf[:n]...)
 		if err != nil {
+			for i := range s.after {
+				an, aerr := rd.Read(s.buf[:step])
+				s.after[i] = afterRead{an, aerr}
+			}
 			return s.out, err
 		}
 		if n == 0 {
 			if idle++; idle > 1000 {
+				s.after = [nAfter]afterRead{}
 				return s.out, nil
 			}
 		} else {
@@ -317,7 +333,7 @@ func (c *checker) check(s *scratch, st *stats, text []byte, mode int, table stri
 		}
 	}()
 	out, err := s.decode(text, mode)
-	v = judge(text, out, err)
+	v = judge(text, out, err, s.after[:])
 	if st != nil {
 		st.tab(table, v.class)
 	}
